@@ -84,8 +84,11 @@ def traced_pipeline(succ):
     aborted = False
     first = snap()
     try:
+        marks = []
         scfg.join_returns()
+        marks.append(len(events))
         scfg.restructure_loop()
+        marks.append(len(events))
         scfg.restructure_branch()
     except Exception:  # noqa: BLE001
         aborted = True
@@ -96,6 +99,7 @@ def traced_pipeline(succ):
         tr.loop_restructure_helper = orig_loop
     last = snap()
     traced_pipeline.ends = (first, last)
+    traced_pipeline.marks = marks if not aborted else []
     return events, aborted
 
 
@@ -228,14 +232,29 @@ def certify_chains(inputs):
             continue
         stats["runs_fully_observed"] += 1
         lines.append(f"CHAIN0 {first[0]} {first[1]}")
-        for e in events:
+        prefix_idx = []
+        marks = list(traced_pipeline.marks)
+        for k, e in enumerate(events):
+            while marks and marks[0] == k:          # a stage ended here: judge the chain so far
+                marks.pop(0)
+                lines.append("CHAINEND")
+                prefix_idx.append(len(lines) - 1)
             lines.append(f"CHAINSTEP {TAG[e[0]]} {e[3] or '-'} {e[4] or '-'} {e[5]} {e[2]}")
+        while marks:
+            marks.pop(0)
+            lines.append("CHAINEND")
+            prefix_idx.append(len(lines) - 1)
         lines.append("CHAINEND")
-        meta.append((succ, [e[0] for e in events], len(lines) - 1))
+        meta.append((succ, [e[0] for e in events], len(lines) - 1, prefix_idx))
     rep = drv.run(lines) if lines else []
     uncertified = []
-    for succ, kinds, idx in meta:
+    for succ, kinds, idx, prefix_idx in meta:
         out = dict(kv.split("=") for kv in rep[idx].split())
+        for pi in prefix_idx:                       # after join_returns, after restructure_loop
+            po = dict(kv.split("=") for kv in rep[pi].split())
+            stats["stage_prefixes"] = stats.get("stage_prefixes", 0) + 1
+            if po.get("flat") == "1" and po.get("total") == "1" and po.get("specfuel") == "1" and po.get("region") == "1":
+                stats["stage_prefixes_certified_for_both_walks"] = stats.get("stage_prefixes_certified_for_both_walks", 0) + 1
         if out.get("flat") != "1":
             stats["input_not_flat"] += 1
         bits = out.get("bits", "-").rstrip("-")
